@@ -39,6 +39,9 @@ CLAIMS = {
  'C14': dict(technique="runtime monitoring: compiled Fifo/Stack wrappers executed by vsim against deque/list models; online comparison per clock and an offline FIFO-order / occupancy checker over recorded push/pop events with unique ids",
              text="Exploration: capacities 2..8 (power of two and not), one-context closure over all legal command sequences (2-bit data), two-context runs over tx/rx delay settings with unique ids, both stack modes.",
              ref="2 C14"),
+ 'C15': dict(technique="runtime monitoring: two-process wrapper executed by vsim; an online exactly-once automaton over the recorded send/receive events (unique payloads) across all schedules of producer/consumer willingness",
+             text="Exploration: SyncFlag and Mailbox x tx/rx delays 0..3 x consumer/producer styles; all 32 input valuations in every reached joint state (budget), random runs at four densities, bounded drain.",
+             ref="2 C15"),
  'C13': dict(technique="runtime monitoring: fresh interpreter per creation order with post-hoc assertions on identity / issubclass / isinstance of the lazily created classes and on view write-through; nested views in emitted logic executed by vsim",
              text="Exploration: seeded creation orders (widths 1..40, arrays, 4 qualifiers, 3 directions) in fresh processes; random nested view chains as read sources and write targets of compiled entities.",
              ref="2 C13"),
